@@ -369,7 +369,10 @@ def header_shape(kind, n):
         if kind == "all":
             sens = _SensitivityAll()
         else:
-            sens = _SensitivityList([SObj(Signal, _value=SObj(Bit, _val=None)) for _ in range(n)])
+            sigs = [SObj(Signal, _value=SObj(Bit, _val=None), _ref_spec=[]) for _ in range(n)]
+            for sg in sigs:
+                sg.fields["_root"] = sg
+            sens = _SensitivityList(sigs)
         return SObj(VR.Process, _sensitivity=sens, _scope=SObj(VhdlScope))
 
     return Built([], make, lambda asg: "None", lambda asg: None)
@@ -397,6 +400,71 @@ for kind, n in (("all", 0), ("list", 0), ("list", 1), ("list", 2)):
     c.native = False
     c.custom_replay = "contracts.c06_extra.replay_empty_sensitivity"
     con.cases.append(c)
+
+
+# entries of an explicit sensitivity list that are VIEWS (slice, .unsigned / .signed / .bitvector) of a signal: only signal names may
+# appear in a sensitivity list -- the signal itself stands for its views, once
+def header_views_shape():
+    def make(env):
+        r1 = SObj(Signal, _value=SObj(Bit, _val=None), _ref_spec=[], f_tag="r1")
+        r1.fields["_root"] = r1
+        r2 = SObj(Signal, _value=SObj(Bit, _val=None), _ref_spec=[], f_tag="r2")
+        r2.fields["_root"] = r2
+        v1 = SObj(Signal, _value=SObj(Bit, _val=None), _ref_spec=["<slice>"], _root=r1, f_tag="slice of r1")
+        v2 = SObj(Signal, _value=SObj(Bit, _val=None), _ref_spec=[], _root=r1, f_tag="cast view of r1")
+        return SObj(VR.Process, _sensitivity=_SensitivityList([v1, r2, v2]), _scope=SObj(VhdlScope))
+
+    return Built([], make, lambda asg: "None", lambda asg: None)
+
+
+def header_views_spec(sx, self):
+    def holds(res):
+        texts = [t for _, t in flat(res)]
+        if not texts or not isinstance(texts[0], SFmt):
+            return False
+        named = []
+        for part in texts[0].parts[2:]:
+            v = part.value if isinstance(part, TextOf) else part
+            deps = getattr(v, "deps", None)
+            if deps:
+                d0 = deps[0] if not isinstance(deps, SObj) else deps
+                named.append(d0.fields.get("f_tag") if isinstance(d0, SObj) else None)
+            elif isinstance(v, SObj):
+                named.append(v.fields.get("f_tag"))
+        return named == ["r1", "r2"]
+
+    return C.Pred(holds, "process(<root of the first view>, <second signal>): roots, each once, in order")
+
+
+c = Case("list-of-views", [header_views_shape()], header_views_spec)
+c.native = False
+c.custom_replay = "contracts.c06_stmts.replay_sensitivity_views"
+con.cases.append(c)
+
+_SENS_VIEWS_DESIGN = '''
+import re
+import cohdl
+from cohdl import std, BitVector, Unsigned, Port
+class SensViews(cohdl.Entity):
+    b = Port.input(Unsigned[6])
+    bv = Port.input(BitVector[4])
+    y = Port.output(Unsigned[6])
+    def architecture(self):
+        @cohdl.sequential_context
+        def p():
+            cohdl.sensitivity.list(self.b[3:0], self.bv.unsigned)
+            self.y <<= self.b + self.bv.unsigned
+t = std.VhdlCompiler.to_string(SensViews)
+print(re.findall(r"process\\((.*)\\)\\s*$", t, flags=re.M))
+'''
+
+
+def replay_sensitivity_views(payload):
+    import re
+    from contracts.c06_extra import _run_design
+
+    rc, out = _run_design(_SENS_VIEWS_DESIGN)
+    return {"reproduced": rc == 0 and bool(re.search(r"[(]|downto", out.split("[", 1)[-1].replace("['", "").replace("']", ""))), "detail": "explicit sensitivity list with a slice and a cast view: " + out[-100:]}
 
 
 # ---- PrepareAst.add_sensitivity -----------------------------------------------------------------------
